@@ -10,10 +10,11 @@ import AsyncsshModel.Gen.C08
   event sequence.  The integer expressions of the code are regenerated into `Gen/C08.lean` on every run and the
   model's arithmetic is proved equal to them (`model_*_eq_gen`).
 
-  Two clauses of the property are FALSE of the code as it stands; the negation witnesses are proved here and
-  replayed on the real code by harness/props/C08.py:
-    * F2  `sender_spins_zero_pktsize`   — a peer advertising maximum packet size 0 makes `_flush_send_buf` spin
-    * F3  `receiver_window_exceeded_while_paused` — while reading is paused the advertised window is not enforced
+  Two clauses of the property were FALSE of the code before the fixes de5c08f (F2) and 53cd2ff (F3); the model now
+  follows the fixed code, the full clauses are proved, and the old behaviour is kept as witness theorems about the
+  old functions (`flushDataOld` / `stepOld`):
+    * F2  `sender_spins_zero_pktsize_old`   — a peer advertising maximum packet size 0 made `_flush_send_buf` spin
+    * F3  `receiver_window_exceeded_while_paused_old` — while reading was paused the advertised window was not enforced
 -/
 namespace AsyncsshModel.Channel
 open AsyncsshModel
@@ -39,51 +40,60 @@ theorem data_packets_bounded (c c' : Chan) (ev : Ev) (ms : List Msg) (os : List 
   have := ss.sendWindow
   omega
 
-/-- **Sender progress — partial** (needs `0 < sendPktsize`, which the code does not enforce: see
-    `sender_spins_zero_pktsize`): the send loop terminates within `flushFuel` iterations, each consuming a byte or
-    a buffer entry, and leaves the buffer empty or the window exhausted. -/
-theorem sender_progress_partial (c : Chan) (hp : 0 < c.sendPktsize) (hw : WFs c) :
-    ∃ c' ms, flushSend c = some (c', ms) ∧ (c'.sendBuf = [] ∨ c'.sendWindow = 0) := by
-  obtain ⟨⟨c', ms⟩, hr⟩ := flushSend_some c hp
+/-- **Sender progress** (unconditional since fix de5c08f): for EVERY state — any window, any maximum packet size,
+    0 included — the send loop terminates within `flushFuel` iterations and leaves the buffer empty, the window
+    exhausted, or (packet size 0) everything in the buffer untouched. -/
+theorem sender_progress (c : Chan) (hw : WFs c) :
+    ∃ c' ms, flushSend c = some (c', ms) ∧ (c'.sendBuf = [] ∨ c'.sendWindow = 0 ∨ c'.sendPktsize = 0) := by
+  obtain ⟨⟨c', ms⟩, hr⟩ := flushSend_some c
   exact ⟨c', ms, hr, (flushSend_spec c c' ms hw hr).exit⟩
 
-/-- with a positive maximum packet size no event makes an endpoint spin -/
-theorem no_spin_partial (c : Chan) (ev : Ev) (hp : 0 < c.sendPktsize) : step c ev ≠ .error .spin :=
-  step_not_spin c ev hp
+/-- no event makes an endpoint spin, whatever the peer advertised -/
+theorem no_spin (c : Chan) (ev : Ev) : step c ev ≠ .error .spin :=
+  step_not_spin c ev
 
-/-- **F2 — the full `sender_progress` is FALSE**: with the peer's maximum packet size 0 (accepted by
-    `_process_channel_open` / `_process_channel_open_confirmation`, whose zero check is commented out), a non-zero
-    window and data to send, the loop `while self._send_buf and self._send_window` never exits — no amount of fuel
-    suffices, every iteration emits an empty DATA packet and leaves the state unchanged. -/
-theorem sender_spins_zero_pktsize (c : Chan) (dt : DType) (bs : Bytes) (hw : WF c)
-    (hp : c.sendPktsize = 0) (hwin : c.sendWindow ≠ 0) (hs : c.sendState = .opn)
+/-- the loop leaves exactly when the generated test `if pktsize <= 0: break` says so, and the translator found
+    that test in the code -/
+theorem model_break_eq_gen (w p : Nat) : pktSize w p = 0 ↔ Gen.C08.breakCond (pktSize w p) := by
+  unfold Gen.C08.breakCond; omega
+
+theorem send_loop_breaks_on_zero : Gen.C08.loopBreaksOnZero = true := by decide
+
+/-- with maximum packet size 0 a write is accepted, nothing is sent, the data stays buffered -/
+theorem zero_pktsize_sends_nothing :
+    step (Chan.opened 100 [] [1] true 10 0 .no) (.write none [1]) =
+      .ok ({ Chan.opened 100 [] [1] true 10 0 .no with sendBuf := [([1], none)] }, [], []) := by
+  rfl
+
+/-- **F2 — witness for the code BEFORE fix de5c08f** (`stepOld` / `flushDataOld`: no `if pktsize <= 0: break`): with
+    the peer's maximum packet size 0 (accepted by `_process_channel_open` / `_process_channel_open_confirmation`), a
+    non-zero window and data to send, the loop `while self._send_buf and self._send_window` never exited — no amount
+    of fuel suffices, every iteration emits an empty DATA packet and leaves the state unchanged. -/
+theorem sender_spins_zero_pktsize_old (c : Chan) (dt : DType) (bs : Bytes)
+    (hp : c.sendPktsize = 0) (hwin : c.sendWindow ≠ 0) (hs : c.sendState = .opn) (hsb : c.sendBuf = [])
     (ht : typeOk c.writeTypes dt = true) (hne : bs ≠ []) :
-    step c (.write dt bs) = .error .spin ∧
-    (∀ fuel, flushData fuel { c with sendBuf := c.sendBuf ++ [(bs, dt)] } = none) := by
-  have hsb : c.sendBuf = [] := by
-    rcases hw.exit with h | h
-    · exact h
-    · exact absurd h hwin
-  have hspin : ∀ fuel, flushData fuel { c with sendBuf := c.sendBuf ++ [(bs, dt)] } = none := by
+    stepOld c (.write dt bs) = .error .spin ∧
+    (∀ fuel, flushDataOld fuel { c with sendBuf := c.sendBuf ++ [(bs, dt)] } = none) := by
+  have hspin : ∀ fuel, flushDataOld fuel { c with sendBuf := c.sendBuf ++ [(bs, dt)] } = none := by
     intro fuel
-    exact flushData_spins fuel _ bs dt [] (by simp [hsb]) hne hwin hp
+    exact flushDataOld_spins fuel _ bs dt [] (by simp [hsb]) hne hwin hp
   refine ⟨?_, hspin⟩
   have hne' : bs.isEmpty = false := by simpa using hne
-  simp only [step]
+  simp only [stepOld]
   rw [if_neg (by simp [hs]), if_neg (by simp [ht]), if_neg (by simp [hne'])]
-  unfold flushSend
+  unfold flushSendOld
   rw [hspin]
   rfl
 
-/-- one iteration of the spinning loop: an empty DATA packet, nothing consumed, window unchanged -/
+/-- one iteration of the old spinning loop: an empty DATA packet, nothing consumed, window unchanged -/
 theorem spin_iteration (buf : Bytes) (dt : DType) (rest : Buf) (w : Nat) (h : buf ≠ []) :
     splitHead (pktSize w 0) buf dt rest = ([], (buf, dt) :: rest) := by
   have : pktSize w 0 = 0 := by unfold pktSize; omega
   rw [this]; exact splitHead_zero buf dt rest h
 
 /-- the connection layer hands ANY maximum packet size to the channel unless both zero checks are active (and
-    placed after the dropbear adjustment); with the checks active only positive sizes get through, and then
-    `sender_progress_partial` / `no_spin_partial` apply unconditionally -/
+    placed after the dropbear adjustment) — upstream leaves them out on purpose for interoperability, which is
+    harmless now that the send loop breaks on a zero packet size -/
 theorem pktsize_positive_if_checked (p : Nat) (h1 : Gen.C08.zeroPktsizeRejectedOpen = true)
     (h2 : Gen.C08.zeroPktsizeRejectedConfirm = true) (ha : Gen.C08.admitsPktsize p = true) : 0 < p := by
   unfold Gen.C08.admitsPktsize at ha
@@ -108,29 +118,37 @@ theorem receiver_accounting (c0 c : Chan) (h : Hist) (evs : List Ev) (hw : WF c0
   let a := acct_run evs c0 c0 c {} h (acct_init c0 hw) hr
   ⟨a.recvGe, a.recvEq⟩
 
-/-- **The receiver enforces its window — partial** (nothing buffered, i.e. reading was never paused): a DATA
-    packet is accepted only if, together with everything delivered so far, it fits what was advertised
-    (initial window + Σ WINDOW_ADJUST sent); anything larger is `ProtocolError('Window exceeded')`. -/
-theorem receiver_enforces_window_partial (c0 c : Chan) (h : Hist) (evs : List Ev) (hw : WF c0)
+/-- **The receiver enforces its window** (unconditional since fix 53cd2ff, paused or not): a DATA packet is
+    accepted only if, together with everything accepted so far — delivered to the session AND still buffered —
+    it fits what was advertised (initial window + Σ WINDOW_ADJUST sent); anything larger is
+    `ProtocolError('Window exceeded')`. -/
+theorem receiver_enforces_window (c0 c : Chan) (h : Hist) (evs : List Ev) (hw : WF c0)
     (hr : runChan c0 {} evs = some (c, h)) (hopen : c.sendChanOpen = true) (dt : DType) (bs : Bytes) :
-    (((bufBytes (dataOuts h.dl) + bs.length : Nat) : Int) > c0.recvWindow + h.adjOut →
+    (((bufBytes (dataOuts h.dl) + bufBytes c.recvBuf + bs.length : Nat) : Int) > c0.recvWindow + h.adjOut →
       c.recvState = .opn → typeOk c.readTypes dt = true → step c (.recv (.data dt bs)) = .error .windowExceeded) ∧
     (∀ r, step c (.recv (.data dt bs)) = .ok r →
-      ((bufBytes (dataOuts h.dl) + bs.length : Nat) : Int) ≤ c0.recvWindow + h.adjOut) := by
+      ((bufBytes (dataOuts h.dl) + bufBytes c.recvBuf + bs.length : Nat) : Int) ≤ c0.recvWindow + h.adjOut) := by
   have heq := (receiver_accounting c0 c h evs hw hr).2 hopen
   refine ⟨?_, ?_⟩
   · intro hgt hs ht
-    have : (bs.length : Int) > c.recvWindow := by push_cast at hgt; omega
+    have : (bs.length : Int) > c.recvWindow - bufBytes c.recvBuf := by push_cast at hgt; omega
     simp [step, recvMsg, hs, ht, this]
   · intro r hok
     obtain ⟨c', ms, os⟩ := r
     obtain ⟨_, _, hlen, _⟩ := step_recv_data_ok hok
     push_cast; omega
 
-/-- with an empty receive buffer (never paused) the check is exactly "fits the advertised, unconsumed window" -/
+/-- the model's check is the generated one; `_recv_buf_len` is what the model computes as `bufBytes recvBuf` -/
 theorem window_check_is_the_generated_one (c : Chan) (bs : Bytes) :
-    ((bs.length : Int) > c.recvWindow) ↔ Gen.C08.windowExceededCond bs.length c.recvWindow := by
+    ((bs.length : Int) > c.recvWindow - bufBytes c.recvBuf) ↔
+      Gen.C08.windowExceededCond bs.length c.recvWindow (bufBytes c.recvBuf) := by
   unfold Gen.C08.windowExceededCond; rfl
+
+/-- the counter `_recv_buf_len` is incremented where data is buffered, decremented where it is popped and reset
+    where the buffer is discarded — nowhere else: it equals `bufBytes recvBuf` -/
+theorem recv_buf_len_sites : Gen.C08.recvBufLenSites =
+    ["__init__: self._recv_buf_len = 0", "_accept_data: self._recv_buf_len += len(data)",
+     "_discard_recv: self._recv_buf_len = 0", "_flush_recv_buf: self._recv_buf_len -= len(data)"] := by decide
 
 def f3Chan : Chan := Chan.opened 100 [] [1] true 1000 1000 .no
 def f3Data : Bytes := List.replicate 96 0x41
@@ -138,15 +156,22 @@ def f3Run : List Ev :=
   [.pause, .recv (.data none f3Data), .recv (.data none f3Data), .recv (.data none f3Data),
    .recv (.data none f3Data), .recv (.data none f3Data)]
 
-/-- **F3 — the full `receiver_enforces_window` is FALSE while reading is paused** (negation witness, replayed on
-    the real code with a raw peer): the window (100 bytes, never replenished: no WINDOW_ADJUST was sent) is
-    decremented at delivery (`Gen.C08.recvWindowDecrementedIn = ["_deliver_data"]`), not at acceptance, so a peer
-    that ignores it gets 480 bytes accepted and buffered without `ProtocolError('Window exceeded')`. -/
-theorem receiver_window_exceeded_while_paused :
-    ∃ c h, runChan f3Chan {} f3Run = some (c, h) ∧ h.adjOut = 0 ∧ f3Chan.initWindow = 100 ∧
+/-- **F3 — witness for the code BEFORE fix 53cd2ff** (`runChanOld`: the check was `datalen > self._recv_window`): the
+    window (100 bytes, never replenished: no WINDOW_ADJUST was sent) is decremented at delivery, not at acceptance,
+    so while reading was paused a peer that ignored it got 480 bytes accepted and buffered without
+    `ProtocolError('Window exceeded')`. -/
+theorem receiver_window_exceeded_while_paused_old :
+    ∃ c h, runChanOld f3Chan {} f3Run = some (c, h) ∧ h.adjOut = 0 ∧ f3Chan.initWindow = 100 ∧
       bufBytes c.recvBuf = 480 ∧ c.recvState = .opn := by
   refine ⟨_, _, rfl, ?_⟩
   decide +kernel
+
+/-- now the second packet is refused: the run ends with `ProtocolError('Window exceeded')` -/
+theorem receiver_window_enforced_while_paused :
+    runChan f3Chan {} f3Run = none ∧
+    step { f3Chan with recvPaused := .yes, recvBuf := [(f3Data, none)] } (.recv (.data none f3Data)) =
+      .error .windowExceeded := by
+  constructor <;> rfl
 
 theorem decrement_site_is_delivery : Gen.C08.recvWindowDecrementedIn = ["_deliver_data"] := by decide
 
@@ -176,8 +201,8 @@ theorem replenish_rule (c : Chan) (data : Bytes) (dt : DType) (hopen : c.sendCha
 
 /-! ### two honest endpoints: no protocol error, no deadlock -/
 
-/-- **Honest peers never trip each other's checks**: in every reachable state of two endpoints that advertise
-    positive maximum packet sizes and compatible datatypes, EVERY event succeeds — no delivery raises
+/-- **Honest peers never trip each other's checks**: in every reachable state of two endpoints with compatible
+    datatypes (ANY windows and maximum packet sizes), EVERY event succeeds — no delivery raises
     `ProtocolError` ("Window exceeded", "Channel not open", "Invalid extended data type"), no send loop spins. -/
 theorem honest_no_protocol_error (ca cb : SideCfg) (hc : Compatible ca cb) (evs : List Event) (s : Sys)
     (h : (Sys.init ca cb).run evs = .ok s) (ev : Event) : ∃ s', s.step ev = .ok s' :=
@@ -185,33 +210,35 @@ theorem honest_no_protocol_error (ca cb : SideCfg) (hc : Compatible ca cb) (evs 
   no_fatal s g.inv g.tinv ev
 
 /-- **No deadlock**: in every reachable state with undelivered data (in the send buffer, in flight, or in the
-    receive buffer), a reader that is reading and a non-zero advertised window, some message is in flight in one
-    of the two directions: a delivery step is enabled (it succeeds by `honest_no_protocol_error`). -/
+    receive buffer), a reader that is reading, a non-zero advertised window and a non-zero maximum packet size
+    (a receiver advertising 0 forbids all data: that is its configuration, not a deadlock), some message is in
+    flight in one of the two directions: a delivery step is enabled (it succeeds by `honest_no_protocol_error`). -/
 theorem no_deadlock_prop (ca cb : SideCfg) (evs : List Event) (s : Sys) (h : (Sys.init ca cb).run evs = .ok s)
-    (x : Side) (hu : 0 < undelivered s x) (hr : Reading s x.other) (hinit : 0 < (s.ep x.other).initWindow) :
+    (x : Side) (hu : 0 < undelivered s x) (hr : Reading s x.other) (hinit : 0 < (s.ep x.other).initWindow)
+    (hp : 0 < (s.ep x).sendPktsize) :
     s.link x.other ≠ [] ∨ s.link x ≠ [] :=
-  no_deadlock s x (reachable_inv ca cb evs s h) hu hr hinit
+  no_deadlock s x (reachable_inv ca cb evs s h) hu hr hinit hp
 
 /-- **Every non-application step makes progress**: each delivery strictly decreases the potential `sysPot`
     (4·bytes + 3·entries of the send buffers, bytes + 2·entries of the receive buffers, bytes + 3 per DATA message
     and 1 per other message in flight, 2 per send stage not yet reached). -/
-theorem delivery_decreases_measure (ca cb : SideCfg) (hc : Compatible ca cb) (evs : List Event) (s s' : Sys)
+theorem delivery_decreases_measure (ca cb : SideCfg) (evs : List Event) (s s' : Sys)
     (h : (Sys.init ca cb).run evs = .ok s) (z : Side) (m : Msg) (rest : List Msg) (hl : s.link z = m :: rest)
     (hs : s.step (.deliver z) = .ok s') : sysPot s' < sysPot s :=
-  let g := good_run evs _ s (good_init ca cb hc) h
-  deliver_decreases s s' z m rest g.inv g.tinv.pkt hl hs
+  deliver_decreases s s' z m rest (reachable_inv ca cb evs s h) hl hs
 
 /-- **Every written byte is eventually delivered**: from every reachable state, if the receiving application
-    keeps reading (not paused, not about to pause, not closed) and advertised a non-zero window, delivering the
+    keeps reading (not paused, not about to pause, not closed) and advertised a non-zero window and maximum
+    packet size, delivering the
     messages in flight — the only steps needed, each enabled and each decreasing the measure, so in ANY fair
     order — leads to a state where everything written so far has been handed to it. -/
 theorem every_byte_eventually_delivered (ca cb : SideCfg) (hc : Compatible ca cb) (evs : List Event) (s : Sys)
     (h : (Sys.init ca cb).run evs = .ok s) (x : Side) (hr : Reading s x.other)
-    (hinit : 0 < (s.ep x.other).initWindow) :
+    (hinit : 0 < (s.ep x.other).initWindow) (hp : 0 < (s.ep x).sendPktsize) :
     ∃ ds s', (∀ e ∈ ds, ∃ z, e = Event.deliver z) ∧ s.run ds = .ok s' ∧
       tag (dataOuts (s'.hist x.other).dl) = tag (s'.hist x).wr :=
   let g := good_run evs _ s (good_init ca cb hc) h
-  all_data_eventually_delivered (sysPot s) s x (Nat.le_refl _) g.inv g.tinv hr hinit
+  all_data_eventually_delivered (sysPot s) s x (Nat.le_refl _) g.inv g.tinv hr hinit hp
 
 /-! ### tie to the code: the generated arithmetic -/
 
@@ -257,8 +284,8 @@ theorem receiver_example :
     step (Chan.opened 100 [1] [] true 10 10 .no) (.recv (.data none (List.replicate 101 0))) = .error .windowExceeded := by
   rfl
 
-/-- max packet size 0: the very first write spins -/
-theorem spin_example : step (Chan.opened 100 [] [1] true 10 0 .no) (.write none [1]) = .error .spin :=
-  (sender_spins_zero_pktsize _ none [1] (opened_wf ..) rfl (by decide) rfl rfl (by simp)).1
+/-- max packet size 0, before fix de5c08f: the very first write spins -/
+theorem spin_example_old : stepOld (Chan.opened 100 [] [1] true 10 0 .no) (.write none [1]) = .error .spin :=
+  (sender_spins_zero_pktsize_old _ none [1] rfl (by decide) rfl rfl rfl (by simp)).1
 
 end AsyncsshModel.Channel
